@@ -176,7 +176,65 @@ def obligations(tier):
             obs.append(wrap(ob, True))
             if tier != "quick":
                 obs.append(wrap(ob, False))
+    obs += solver_obligations(tier)
     obs.append(bounded_obligation())
+    return obs
+
+
+def solver_obligations(tier):
+    """the NNLS solver bodies (their value obligations live on the dense engine, which carries no dtype tags): prefix, two sweeps and the exit of hals_nnls and
+    fista on dtype-tagged symbolic tensors of every size; the top singular value used as step size is a dependency (dtype contract: real, input precision)"""
+    import tensorly as tl
+    import tensorly.solvers.nnls as nn
+    from ..symint import atom
+    from ..loopcut import LoopCut
+    from ..iterative import stubbed, real_dtype
+    obs = []
+    r_, c_ = atom("r"), atom("c")
+    def tsvd(S):
+        def f(M, *a, **k):
+            if S.name != "sym":
+                from tensorly.tenalg.svd import truncated_svd as real
+                return real(M, *a, **k)
+            return None, [G.opaque_tensor("SIGMA", [], real_dtype(M), nonneg=True)], None
+        return f
+    for single in ((True, False) if tier != "quick" else (True,)):
+        for name, opts in (("fista", dict()), ("fista", dict(sparsity_coef=0.1, ridge_coef=0.2)), ("hals_nnls", dict()), ("hals_nnls", dict(sparsity_coefficient=0.1, ridge_coefficient=0.2))):
+            def setup(S, single=single, name=name):
+                D_ = DtNS(S, single)
+                rr = 2 if name == "hals_nnls" else r_     # (hals_nnls loops over the rows in Python: rank enumerated)
+                return dict(_S=S, UtM=D_.input("UtM", [rr, c_]), UtU=D_.input("UtU", [rr, rr]), x=D_.input("x0", [rr, c_], nonneg=True))
+            def call(I, name=name, opts=opts):
+                S = I["_S"]
+                func = getattr(nn, name)
+                with stubbed(tl, truncated_svd=tsvd(S)):
+                    if S.name != "sym":
+                        return func(I["UtM"], I["UtU"], I["x"], **opts) if name == "hals_nnls" else func(I["UtM"], I["UtU"], x=I["x"], **opts)
+                    cut = LoopCut(func)
+                    st = cut.prefix(I["UtM"], I["UtU"], I["x"], **opts) if name == "hals_nnls" else cut.prefix(I["UtM"], I["UtU"], x=I["x"], **opts)
+                    outs = []
+                    for it in (0, 1):
+                        kind, st = cut.body(st, it)
+                        if kind == "return":
+                            return [st]
+                        outs.append({k: v for k, v in st.items() if isinstance(v, G.GTensor)})
+                        if kind == "break":
+                            break
+                    outs.append(cut.suffix(st))
+                    return outs
+            def post(S, I, res, single=single):
+                tag = "float32" if single else "float64"
+                out, n = [], 0
+                for path, a in leaves(res):
+                    n += 1
+                    if not allowed(dtype_name(a), single):
+                        out.append((f"{path} has dtype {dtype_name(a)}, the inputs are {tag}", 0, 1))
+                out.append((f"{n} arrays (iterates after each sweep, the result), all in the {tag} context", int(n >= 1), 1))
+                return out
+            tagn = ",".join(f"{k}={v}" for k, v in opts.items()) or "plain"
+            obs.append(GOb(PID, f"{PID}/{'float32' if single else 'float64'}/solvers.nnls:{name}/iterates and result keep the input precision[{tagn}]", f"tensorly.solvers.nnls:{name}", setup, call, post,
+                           tenalg="core", instance=dict(dtype="float32" if single else "float64", **opts), clause="every iterate and the result carry the input precision",
+                           forall=["sizes", "values", "paths"], enumerated=["options", "dtype"], side_nonzero=True))
     return obs
 
 
